@@ -142,12 +142,15 @@ Judge(step, res, before, after) ==
         dst == step.dst
         frameBad == {s \in DOMAIN before : s # dst /\ after[s] # before[s]}
         dstBad == dst # 0 /\ IsMesh(res) /\ after[dst] # res
+        \* an ill-formed result cannot be dereferenced: it is rejected without evaluating the reference comparison
+        wf == IsMesh(res) => WellFormed(res)
     IN (IF frameBad # {} THEN {"C01.Frame"} ELSE {})
        \cup (IF dstBad THEN {"Harness.Dst"} ELSE {})
-       \cup (IF adm /\ IsMesh(res) /\ ~WellFormed(res) THEN {"C02.WellFormed"} ELSE {})
-       \cup (IF pre /\ Class(step.op) # "attr" /\ ~Equiv(Class(step.op), res, exp) THEN {"C03.Result"} ELSE {})
-       \cup (IF pre /\ Class(step.op) = "attr" /\
+       \cup (IF adm /\ ~wf THEN {"C02.WellFormed"} ELSE {})
+       \cup (IF pre /\ ~wf THEN {"C03.Result"} ELSE {})
+       \cup (IF pre /\ wf /\ Class(step.op) # "attr" /\ ~Equiv(Class(step.op), res, exp) THEN {"C03.Result"} ELSE {})
+       \cup (IF pre /\ wf /\ Class(step.op) = "attr" /\
                  ~(IF IsFail(exp) THEN IsFail(res) ELSE IsMesh(res) /\ AttrOk(step, S(step, before, 1), res))
              THEN {"C03.Result"} ELSE {})
-       \cup (IF pre /\ IsMesh(res) /\ IsMesh(exp) /\ ~PostOk(step, res, before) THEN {"C03.Post"} ELSE {})
+       \cup (IF pre /\ wf /\ IsMesh(res) /\ IsMesh(exp) /\ ~PostOk(step, res, before) THEN {"C03.Post"} ELSE {})
 =============================================================================
